@@ -23,6 +23,9 @@ static u8* typed_new(u64 n) { if (n == vp_queue_objsize() && !queue_given) { que
 #ifndef TASKMAX
 #define TASKMAX 16
 #endif
+#ifndef BAGMAX
+#define BAGMAX 8
+#endif
 #include "fg14_stubs.h"
 #ifndef BAGRUNS
 #define BAGRUNS 8
